@@ -10,7 +10,8 @@ Bad == <<1, 2, 3, 127>>                \* neither timestamp, marker nor header
 BadCh == <<1, 2, 3, 128 + 59>>         \* channel 59 does not exist
 Hdr == <<60, 0, 0, 254>>               \* header whose block may or may not complete
 Trunc == <<3, 2>>                      \* half a word
-Items == {Ts, Mk, Blk, Bad, BadCh, Hdr, Trunc}
+NearHdr == <<61, 0, 0, 254>>           \* a header word with one bit flipped: invalid, not a longer block
+Items == {Ts, Mk, Blk, Bad, BadCh, Hdr, Trunc, NearHdr}
 
 RECURSIVE Seqs(_)
 Seqs(k) == IF k = 0 THEN {<<>>} ELSE LET S == Seqs(k - 1) IN S \cup {s \o it : s \in {t \in S : TRUE}, it \in Items}
